@@ -1,2 +1,2 @@
 fn main() {}
-// bf86d7c6
+// e33333f4
